@@ -57,6 +57,20 @@ def query(ctx, reader, fake, ids, start, end, now, flt, tag):
         return
     ctx.count('ids_compared', len(ids))
     ctx.count('expected_in_window', len(exp))
+    # the same window in random order with a limit that does not cut anything off: still every recording of the window
+    if exp and (len(exp) + len(desc['start'])) % 3 == 0:
+        for limit in (len(exp), len(exp) + 3):
+            try:
+                rnd = list(reader.iter_recording_ids('Op', start_date=start, end_date=end, metadata=flt, limit=limit, random_results=True))
+            except Exception as ex:
+                if not (getattr(fake, 'fail_reads', None) and 'injected' in str(ex)):
+                    ctx.violation('random-order time-window listing raised %s' % type(ex).__name__, desc)
+                break
+            ctx.count('random_order_limited_queries')
+            if sorted(rnd) != sorted(exp):
+                ctx.violation('time-window listing in random order with limit %d (>= the %d recordings of the window) returned %d ids (%d distinct)' % (
+                    limit, len(exp), len(rnd), len(set(rnd))), dict(desc, limit=limit))
+                break
     if len(got) != len(set(got)):
         ctx.violation('time-window listing has duplicates', desc)
     gs = set(got)
